@@ -1,8 +1,1999 @@
-//! C14 — placeholder, replaced by the real check.
-use crate::core::{CaseOut, Run};
-pub fn run(run: &Run) {
-	run.infra("C14 is not built yet");
+//! C14 — YAML, TOML, Python, XML and INI manifestation denote the same data.
+//!
+//! Generated JSON-like trees over a format-hostile alphabet are manifested by jrsonnet with every option
+//! combination; the texts are read back by independent readers living in the Python sidecar
+//! `/verif/harness/oracle_c14.py` (PyYAML, tomllib, ast, ElementTree, configparser) and compared with the tree.
+//! One sidecar process serves thousands of texts (a small pool of long-lived processes, JSON lines over pipes).
+use std::{
+	cell::RefCell,
+	collections::BTreeMap,
+	io::{BufRead, BufReader, Write},
+	process::{Child, ChildStdin, ChildStdout, Command, Stdio},
+	sync::{
+		atomic::{AtomicBool, Ordering},
+		Mutex,
+	},
+};
+
+use serde_json::{json, Value};
+
+use jrsonnet_evaluator::{manifest::YamlStreamFormat, Val};
+use jrsonnet_stdlib::{IniFormat, TomlFormat, XmlJsonmlFormat, YamlFormat};
+
+use crate::{
+	core::{guarded, CaseOut, Run, Src, Verdict},
+	jr::{self, Opts, Outcome},
+	json::J,
+};
+
+// ================================================================================================ sidecar
+
+const ORACLE: &str = "/verif/harness/oracle_c14.py";
+const PYTHON: &str = "/usr/bin/python3";
+
+struct Sidecar {
+	child: Child,
+	tx: ChildStdin,
+	rx: BufReader<ChildStdout>,
 }
-pub fn replay(_run: &Run, _stage: &str, _tape: Option<&[u16]>, _v: &serde_json::Value) -> Option<CaseOut> {
-	None
+impl Drop for Sidecar {
+	fn drop(&mut self) {
+		let _ = self.child.kill();
+		let _ = self.child.wait();
+	}
+}
+static POOL: Mutex<Vec<Sidecar>> = Mutex::new(Vec::new());
+static SIDECAR_REPORTED: AtomicBool = AtomicBool::new(false);
+
+fn spawn_sidecar() -> Result<Sidecar, String> {
+	let mut child = Command::new(PYTHON)
+		.arg(ORACLE)
+		.stdin(Stdio::piped())
+		.stdout(Stdio::piped())
+		.stderr(Stdio::inherit())
+		.spawn()
+		.map_err(|e| format!("cannot start {PYTHON} {ORACLE}: {e}"))?;
+	let tx = child.stdin.take().ok_or("no stdin")?;
+	let rx = BufReader::new(child.stdout.take().ok_or("no stdout")?);
+	Ok(Sidecar { child, tx, rx })
+}
+
+/// one batch: every (format, text) is read by the sidecar; answer i is the decoded data or the reader's exception text
+fn ask(items: &[(&str, String)]) -> Result<Vec<Result<R, String>>, String> {
+	if items.is_empty() {
+		return Ok(vec![]);
+	}
+	let req = json!({"items": items.iter().map(|(f, t)| json!({"f": f, "t": t})).collect::<Vec<_>>()});
+	let mut line = serde_json::to_string(&req).map_err(|e| e.to_string())?;
+	line.push('\n');
+	let mut last_err = String::new();
+	for _attempt in 0..2 {
+		let taken = POOL.lock().unwrap().pop();
+		let mut sc = match taken {
+			Some(s) => s,
+			None => spawn_sidecar()?,
+		};
+		let r = (|| -> Result<String, String> {
+			sc.tx.write_all(line.as_bytes()).map_err(|e| format!("write: {e}"))?;
+			sc.tx.flush().map_err(|e| format!("flush: {e}"))?;
+			let mut resp = String::new();
+			let n = sc.rx.read_line(&mut resp).map_err(|e| format!("read: {e}"))?;
+			if n == 0 {
+				return Err("sidecar closed its output".into());
+			}
+			Ok(resp)
+		})();
+		match r {
+			Ok(resp) => {
+				POOL.lock().unwrap().push(sc);
+				let v: Value = serde_json::from_str(&resp).map_err(|e| format!("sidecar answer is not JSON: {e}"))?;
+				let arr = v["r"].as_array().ok_or("sidecar answer has no result list")?;
+				if arr.len() != items.len() {
+					return Err(format!("sidecar answered {} of {} items", arr.len(), items.len()));
+				}
+				return Ok(arr
+					.iter()
+					.map(|x| if x["ok"] == Value::Bool(true) { Ok(decode(&x["v"])) } else { Err(x["e"].as_str().unwrap_or("?").to_owned()) })
+					.collect());
+			}
+			Err(e) => {
+				last_err = e;
+				drop(sc);
+			}
+		}
+	}
+	Err(last_err)
+}
+
+// ================================================================================================ data read back
+
+/// what a reader returned (see the encoding in oracle_c14.py)
+#[derive(Clone, Debug)]
+enum R {
+	Null,
+	Bool(bool),
+	Int(String),
+	Float(f64),
+	Str(String),
+	List(Vec<R>),
+	Dict(Vec<(R, R)>),
+	Other(String),
+}
+
+fn decode(v: &Value) -> R {
+	match v {
+		Value::Null => R::Null,
+		Value::Bool(b) => R::Bool(*b),
+		Value::Number(n) => R::Other(format!("bare json number {n}")),
+		Value::String(s) => R::Str(s.clone()),
+		Value::Array(a) => R::List(a.iter().map(decode).collect()),
+		Value::Object(o) => {
+			if o.len() == 1 {
+				if let Some(Value::String(i)) = o.get("i") {
+					return R::Int(i.clone());
+				}
+				if let Some(Value::String(f)) = o.get("f") {
+					return match f.parse::<f64>() {
+						Ok(x) => R::Float(x),
+						Err(_) => R::Other(format!("float {f}")),
+					};
+				}
+				if let Some(Value::Array(d)) = o.get("d") {
+					return R::Dict(d.iter().map(|kv| (decode(&kv[0]), decode(&kv[1]))).collect());
+				}
+				if let Some(Value::String(t)) = o.get("o") {
+					return R::Other(t.clone());
+				}
+			}
+			R::Dict(o.iter().map(|(k, v)| (R::Str(k.clone()), decode(v))).collect())
+		}
+	}
+}
+
+fn clip(s: &str, n: usize) -> String {
+	if s.chars().count() > n {
+		format!("{}…", s.chars().take(n).collect::<String>())
+	} else {
+		s.to_owned()
+	}
+}
+/// visible rendering of a text (escapes everything outside printable ASCII)
+fn show(s: &str) -> String {
+	let mut o = String::from("\"");
+	for c in s.chars() {
+		match c {
+			'"' => o.push_str("\\\""),
+			'\\' => o.push_str("\\\\"),
+			'\n' => o.push_str("\\n"),
+			'\t' => o.push_str("\\t"),
+			' '..='~' => o.push(c),
+			c if (c as u32) < 0x10000 => o.push_str(&format!("\\u{:04x}", c as u32)),
+			c => o.push_str(&format!("\\U{:08x}", c as u32)),
+		}
+	}
+	o.push('"');
+	o
+}
+fn brief_r(r: &R) -> String {
+	let t = match r {
+		R::Null => "null".to_owned(),
+		R::Bool(b) => format!("bool {b}"),
+		R::Int(i) => format!("int {}", clip(i, 40)),
+		R::Float(f) => format!("float {f:?}"),
+		R::Str(s) => format!("string {}", show(&clip(s, 80))),
+		R::List(a) => format!("sequence of {} [{}]", a.len(), a.iter().take(4).map(brief_r).collect::<Vec<_>>().join(", ")),
+		R::Dict(d) => format!("mapping of {} {{{}}}", d.len(), d.iter().take(4).map(|(k, v)| format!("{}: {}", brief_r(k), brief_r(v))).collect::<Vec<_>>().join(", ")),
+		R::Other(o) => format!("<{o}>"),
+	};
+	clip(&t, 300)
+}
+fn brief_j(j: &J) -> String {
+	match j {
+		J::Str(s) => format!("string {}", show(&clip(s, 80))),
+		J::Num(n) => format!("number {n:?}"),
+		other => clip(&other.to_text(), 200),
+	}
+}
+fn kind_j(j: &J) -> &'static str {
+	match j {
+		J::Null => "null",
+		J::Bool(_) => "bool",
+		J::Num(_) => "number",
+		J::Str(_) => "string",
+		J::Arr(_) => "sequence",
+		J::Obj(_) => "mapping",
+	}
+}
+fn kind_r(r: &R) -> &'static str {
+	match r {
+		R::Null => "null",
+		R::Bool(_) => "bool",
+		R::Int(_) => "int",
+		R::Float(_) => "float",
+		R::Str(_) => "string",
+		R::List(_) => "sequence",
+		R::Dict(_) => "mapping",
+		R::Other(_) => "other",
+	}
+}
+
+/// Is the data read back the generated data?  `stringly`: the format has only strings (XML attributes, INI values),
+/// numbers and booleans are then compared with the text the reader returned.
+/// Returns (signature for classification, message) of the first difference.
+fn diff(want: &J, got: &R, path: &str, stringly: bool) -> Option<(String, String)> {
+	let mism = |w: &J, g: &R| Some((format!("{}-read-as-{}", kind_j(w), kind_r(g)), format!("at {path}: expected {}, the reader returns {}", brief_j(w), brief_r(g))));
+	match (want, got) {
+		(J::Null, R::Null) => None,
+		(J::Bool(a), R::Bool(b)) if a == b => None,
+		(J::Num(x), R::Int(s)) => match s.parse::<f64>() {
+			Ok(v) if v == *x => None,
+			_ => Some(("number-differs".into(), format!("at {path}: expected number {x:?}, the reader returns int {}", clip(s, 60)))),
+		},
+		(J::Num(x), R::Float(v)) => {
+			if v == x {
+				None
+			} else {
+				Some(("number-differs".into(), format!("at {path}: expected number {x:?}, the reader returns float {v:?}")))
+			}
+		}
+		(J::Num(x), R::Str(s)) if stringly => {
+			let numeric = !s.is_empty() && s.chars().all(|c| c.is_ascii_digit() || matches!(c, '-' | '+' | '.' | 'e' | 'E'));
+			match s.parse::<f64>() {
+				Ok(v) if numeric && v == *x => None,
+				_ => Some(("number-text-differs".into(), format!("at {path}: expected the text of number {x:?}, the reader returns {}", show(s)))),
+			}
+		}
+		(J::Bool(b), R::Str(s)) if stringly => {
+			if s == if *b { "true" } else { "false" } {
+				None
+			} else {
+				Some(("bool-text-differs".into(), format!("at {path}: expected the text of {b}, the reader returns {}", show(s))))
+			}
+		}
+		(J::Null, R::Str(s)) if stringly => {
+			if s == "null" {
+				None
+			} else {
+				Some(("null-text-differs".into(), format!("at {path}: expected the text null, the reader returns {}", show(s))))
+			}
+		}
+		(J::Str(a), R::Str(b)) => {
+			if a == b {
+				None
+			} else {
+				Some(("string-differs".into(), format!("at {path}: expected string {}, the reader returns string {}", show(&clip(a, 120)), show(&clip(b, 120)))))
+			}
+		}
+		(J::Arr(a), R::List(b)) => {
+			if a.len() != b.len() {
+				return Some(("sequence-length".into(), format!("at {path}: expected a sequence of {} items, the reader returns {}", a.len(), brief_r(got))));
+			}
+			for (i, (x, y)) in a.iter().zip(b).enumerate() {
+				if let Some(d) = diff(x, y, &format!("{path}[{i}]"), stringly) {
+					return Some(d);
+				}
+			}
+			None
+		}
+		(J::Obj(a), R::Dict(b)) => {
+			// same key set (order of keys is not part of the data); a reader that met a duplicate key has fewer entries
+			for (k, _) in b {
+				match k {
+					R::Str(k) if a.iter().any(|x| &x.0 == k) => {}
+					other => {
+						let expected: Vec<String> = a.iter().map(|x| show(&clip(&x.0, 40))).collect();
+						return Some((format!("key-read-as-{}", kind_r(other)), format!("at {path}: the reader returns the key {} which is not among the expected keys [{}]", brief_r(other), clip(&expected.join(", "), 300))));
+					}
+				}
+			}
+			for (k, v) in a {
+				let hits: Vec<&(R, R)> = b.iter().filter(|x| matches!(&x.0, R::Str(s) if s == k)).collect();
+				match hits.len() {
+					0 => return Some(("key-missing".into(), format!("at {path}: key {} is missing in what the reader returns: {}", show(k), brief_r(got)))),
+					1 => {
+						if let Some(d) = diff(v, &hits[0].1, &format!("{path}.{}", show(&clip(k, 30))), stringly) {
+							return Some(d);
+						}
+					}
+					_ => return Some(("key-duplicated".into(), format!("at {path}: key {} occurs {} times", show(k), hits.len()))),
+				}
+			}
+			None
+		}
+		(w, g) => mism(w, g),
+	}
+}
+
+// ================================================================================================ leniencies (recorded findings)
+
+/// Recorded findings this module can recognise.  Each one is a *repair*: a normalisation of the generated tree or
+/// of the way a text is read that makes exactly the recorded defect disappear; a failing case that passes after the
+/// repairs of the findings listed as `known` is reported as KNOWN, anything left over stays a violation.
+const FINDINGS: &[(&str, &str)] = &[
+	("C14-yaml-nonprintable-raw", "YAML double-quoted scalars leave U+007F (and other non-printable characters) unescaped; YAML readers reject the document"),
+	("C14-yaml-unicode-line-break-raw", "YAML double-quoted scalars leave U+0085, U+2028 and U+2029 raw; these are line breaks for YAML 1.1 readers (folded, or a syntax error inside a key)"),
+	("C14-toml-empty-key-bare", "the empty key is written bare in TOML (` = 1`, `[]`, `[a.]`), which is not TOML"),
+	("C14-ini-non-object-panics", "std.manifestIni of a value that is not an object panics instead of failing"),
+	("C14-yaml-block-scalar-unescapable", "strings with a line break and a character that needs escaping (control, DEL, U+0085, U+2028, U+FEFF) are emitted as block scalars"),
+	("C14-yaml-final-block-scalar-chomped", "a document that ends in a `|` block scalar has no final line break, so the scalar's trailing newline is lost"),
+	("C14-yaml-cli-line-padding", "YamlFormat::cli(n) (jrsonnet -f yaml --line-padding n) indents the fields of an object that is an array element by n columns although `- ` is 2 wide: for n != 2 the output is not YAML"),
+	("C14-yaml-cli-bare-document-end", "YamlFormat::cli (jrsonnet -f yaml, -y) writes the string `...` bare; at the start of a line that is the document-end marker"),
+	("C14-toml-del-raw", "TOML basic strings leave U+007F unescaped; TOML forbids it"),
+	("C14-xml-top-level-string", "std.manifestXmlJsonml accepts a bare string (not a JSONML element)"),
+];
+
+struct Lenient {
+	ids: Vec<&'static str>,
+	used: RefCell<Vec<&'static str>>,
+}
+impl Lenient {
+	fn none() -> Self {
+		Self { ids: vec![], used: RefCell::new(vec![]) }
+	}
+	fn known(run: &Run) -> Self {
+		// C14_ASSUME_KNOWN=id1,id2 (development aid): treat these findings as recorded without editing known_findings.jsonl
+		let all = survey();
+		let assumed = std::env::var("C14_ASSUME_KNOWN").unwrap_or_default();
+		let assumed: Vec<&str> = assumed.split(',').map(|x| x.trim()).collect();
+		Self { ids: FINDINGS.iter().map(|f| f.0).filter(|id| all || assumed.contains(id) || assumed.contains(&"all") || run.is_known(id)).collect(), used: RefCell::new(vec![]) }
+	}
+	fn on(&self, id: &'static str) -> bool {
+		self.ids.contains(&id)
+	}
+	fn mark(&self, id: &'static str) {
+		let mut u = self.used.borrow_mut();
+		if !u.contains(&id) {
+			u.push(id);
+		}
+	}
+}
+fn survey() -> bool {
+	std::env::var("C14_SURVEY").map(|v| v == "1").unwrap_or(false)
+}
+static SURVEY_SEEN: Mutex<BTreeMap<String, u32>> = Mutex::new(BTreeMap::new());
+fn survey_print(sig: &str, text: &str, why: &str) {
+	let mut m = SURVEY_SEEN.lock().unwrap();
+	let n = m.entry(sig.to_owned()).or_default();
+	*n += 1;
+	if *n <= 3 {
+		eprintln!("=== survey [{sig}] #{n}\n{}\n--- {}\n", clip(text, 1500), clip(why, 1500));
+	}
+}
+
+struct Problem {
+	sig: String,
+	msg: String,
+}
+fn problem(sig: impl Into<String>, msg: impl Into<String>) -> Problem {
+	Problem { sig: sig.into(), msg: msg.into() }
+}
+
+/// decide strictly; on failure decide again with the repairs of the recorded findings
+fn settle(run: &Run, text: String, cls: Vec<String>, nontrivial: bool, decide: impl Fn(&Lenient) -> Result<Vec<Problem>, String>) -> CaseOut {
+	let strict = Lenient::none();
+	let problems = match decide(&strict) {
+		Err(e) => {
+			if !SIDECAR_REPORTED.swap(true, Ordering::SeqCst) {
+				run.infra(format!("C14 sidecar unavailable: {e}"));
+			}
+			return CaseOut::discard(text, "sidecar unavailable").classes(cls);
+		}
+		Ok(p) => p,
+	};
+	if problems.is_empty() {
+		return CaseOut::pass(text, nontrivial).classes(cls);
+	}
+	let known = Lenient::known(run);
+	if !known.ids.is_empty() {
+		if let Ok(p2) = decide(&known) {
+			if p2.is_empty() {
+				// attribute the failure: the first recorded finding whose repair alone is enough, else the first one used
+				let used: Vec<&'static str> = known.used.borrow().clone();
+				let mut id = used.first().copied().unwrap_or("C14-unattributed");
+				if used.len() > 1 {
+					for u in &used {
+						let single = Lenient { ids: vec![*u], used: RefCell::new(vec![]) };
+						if matches!(decide(&single), Ok(p) if p.is_empty()) {
+							id = *u;
+							break;
+						}
+					}
+				}
+				if survey() {
+					survey_print(&format!("known:{id}"), &text, &problems.iter().map(|p| p.msg.clone()).collect::<Vec<_>>().join("\n"));
+					return CaseOut::pass(text, nontrivial).classes(cls).class(format!("survey:known:{id}"));
+				}
+				let mut out = CaseOut::pass(text, nontrivial).classes(cls);
+				out.verdict = Verdict::Known(id.to_owned());
+				return out;
+			}
+		}
+	}
+	let mut msgs: Vec<String> = problems.iter().map(|p| p.msg.clone()).collect();
+	msgs.truncate(8);
+	let why = msgs.join("\n");
+	if survey() {
+		let sig = problems[0].sig.clone();
+		survey_print(&format!("residual:{sig}"), &text, &why);
+		return CaseOut::pass(text, nontrivial).classes(cls).class(format!("survey:residual:{sig}"));
+	}
+	CaseOut::fail(text, why).classes(cls)
+}
+
+// ================================================================================================ generator
+
+/// the hostile whole words of the property text (floors are required for these)
+const WORDS: &[&str] = &[
+	"true", "false", "yes", "no", "on", "off", "y", "n", "null", "~", ".nan", ".inf", "-.inf", "0", "-1", "+1", "1_000", "0x1f", "0o17", "0b1", "1e3", ".5", "1.", "1:30", "2001-01-01", "<<",
+];
+/// further look-alikes (own additions)
+const XWORDS: &[&str] = &[
+	"=", "-", "---", "...", "?", "- a", "a: b", "a #b", "#a", "[a]", "{a}", "[", "]", "{", "}", ",", "!t", "!!str", "&a", "*a", "|", ">", "%a", "@a", "`a", "'", "\"", "''", "1e+21", "1.5", "+.inf", "NaN", "0.", "-0", "00", "0777", "-0777",
+	"1_0", "_1", "1__0", "0x_1f", "0b_1", "0XFF", "0B1", "12:30:45", "1:2", "190:20:30.15", "2001-1-1", "2001-01-01T00:00:00Z", "2001-01-01 00:00:00", "1e5", "1E5", "1.0e+3", "-.5", "+.5", "1_000.5", "0o", "0x", "0b", "e", "E1",
+	"----", "..", ".", "-a", "a-", "/", "a/b", "._", "-_", "None", "True", "False", "nil", "Off", "NO", "TRUE", "Null", "NULL", ".NaN", ".Inf", "-.INF", ".NAN", "Y", "N", "a:", ":a", "a :b", "a: ", " a", "a ", "<a>", "&amp;", "]]>", "<!--",
+	"${a}", "%(a)s", "key = v", "[s]", ";c", "\\n", "\\", "\\\"", "a\\", "\\u0041", "\\x41",
+];
+const PLAIN: &[&str] = &["a", "b", "key", "x1", "name", "Z", "aa", "c"];
+const PUNCT: &[char] = &['"', '\'', '\\', '#', ':', '-', '=', '[', ']', '{', '}', ',', '&', '*', '!', '|', '>', '%', '@', '`', '<', '?', '~', '.', '/', '+', '_', ';', '$', '(', ')'];
+const NUMBERISH: &[char] = &['0', '1', '7', '9', '-', '_', '.', 'e', 'E', 'x', 'X', 'b', 'B', 'o', 'a', 'f', ':', '+', '/'];
+
+#[derive(Default)]
+struct Feat {
+	classes: Vec<String>,
+	hostile: usize,
+}
+impl Feat {
+	fn add(&mut self, c: impl Into<String>) {
+		let c = c.into();
+		if !self.classes.contains(&c) {
+			self.classes.push(c);
+		}
+	}
+}
+
+fn is_plain(s: &str) -> bool {
+	let mut cs = s.chars();
+	matches!(cs.next(), Some(c) if c.is_ascii_alphabetic()) && cs.all(|c| c.is_ascii_alphanumeric()) && !WORDS.iter().any(|w| w.eq_ignore_ascii_case(s)) && !XWORDS.iter().any(|w| w.eq_ignore_ascii_case(s))
+}
+
+/// one character of the hostile alphabet (never a line feed)
+fn gen_char(src: &mut Src, f: &mut Feat, role: &str) -> char {
+	let k = src.weighted(&[8, 10, 3, 1, 2, 1, 1, 1, 1, 1, 3, 1]);
+	let (name, c) = match k {
+		0 => ("alnum", *src.pick(&['a', 'b', 'z', 'A', 'Z', '0', '1', '9'])),
+		1 => ("punct", *src.pick(PUNCT)),
+		2 => ("space", ' '),
+		3 => ("tab", '\t'),
+		4 => ("c0", *src.pick(&['\u{1}', '\u{0}', '\u{7}', '\u{8}', '\u{b}', '\u{c}', '\r', '\u{1b}', '\u{1f}'])),
+		5 => ("del", '\u{7f}'),
+		6 => ("nel", '\u{85}'),
+		7 => ("nbsp", '\u{a0}'),
+		8 => ("ls", '\u{2028}'),
+		9 => ("bom", '\u{feff}'),
+		10 => ("bmp", *src.pick(&['é', 'ß', '漢', 'Ω', 'ж', '\u{301}', '\u{fffd}'])),
+		_ => ("astral", *src.pick(&['😀', '𝄞', '\u{10000}', '\u{10ffff}'])),
+	};
+	f.add(format!("{role}-char:{name}"));
+	c
+}
+
+fn gen_line(src: &mut Src, f: &mut Feat, role: &str) -> String {
+	let n = src.range(1, 6) as usize;
+	let mut s: String = (0..n).map(|_| gen_char(src, f, role)).collect();
+	// block-scalar-safe: a line is not empty and neither starts nor ends with a space
+	while s.starts_with(' ') {
+		s.remove(0);
+	}
+	while s.ends_with(' ') {
+		s.pop();
+	}
+	if s.is_empty() {
+		s.push('x');
+	}
+	s
+}
+
+fn case_variant(src: &mut Src, w: &str) -> String {
+	match src.weighted(&[6, 1, 1]) {
+		0 => w.to_owned(),
+		1 => w.to_ascii_uppercase(),
+		_ => {
+			let mut cs = w.chars();
+			match cs.next() {
+				Some(c) => c.to_ascii_uppercase().to_string() + cs.as_str(),
+				None => String::new(),
+			}
+		}
+	}
+}
+
+/// a key (`role` = "key") or string value (`role` = "val") of the hostile domain
+fn gen_str(src: &mut Src, f: &mut Feat, role: &str) -> String {
+	let kind = src.weighted(&[3, 6, 3, 5, 2, 2, 1, 2]);
+	let s = match kind {
+		0 => (*src.pick(PLAIN)).to_owned(),
+		1 => {
+			let w = *src.pick(WORDS);
+			f.add(format!("{role}-word:{w}"));
+			let v = case_variant(src, w);
+			if v != w {
+				f.add(format!("{role}-word-case-variant"));
+			}
+			v
+		}
+		2 => {
+			f.add(format!("{role}-lookalike"));
+			(*src.pick(XWORDS)).to_owned()
+		}
+		3 => {
+			let n = if src.chance(1, 10) { src.range(20, 60) } else { src.range(1, 5) } as usize;
+			(0..n).map(|_| gen_char(src, f, role)).collect()
+		}
+		4 => {
+			f.add(format!("{role}-decorated"));
+			let core = if src.chance(1, 2) { *src.pick(WORDS) } else { *src.pick(PLAIN) };
+			let lead = *src.pick(&["", " ", "  ", "\t", ":", "#", "- ", ": ", "? ", "'", "\""]);
+			let trail = *src.pick(&["", " ", "  ", "\t", ":", " #", ": x", " ", ",", "'", "\""]);
+			format!("{lead}{core}{trail}")
+		}
+		5 => {
+			f.add(format!("{role}-numberish"));
+			let n = src.range(1, 6) as usize;
+			(0..n).map(|_| *src.pick(NUMBERISH)).collect()
+		}
+		6 => {
+			f.add(format!("{role}-empty"));
+			String::new()
+		}
+		_ => {
+			f.add(format!("{role}-multiline"));
+			let n = src.range(1, 4) as usize;
+			let mut lines: Vec<String> = (0..n).map(|_| gen_line(src, f, role)).collect();
+			if n == 1 || src.chance(1, 2) {
+				lines.push(String::new()); // exactly one final newline
+				f.add(format!("{role}-multiline-final-newline"));
+			}
+			lines.join("\n")
+		}
+	};
+	if !is_plain(&s) {
+		f.hostile += 1;
+	}
+	s
+}
+
+fn gen_num(src: &mut Src, f: &mut Feat) -> f64 {
+	match src.weighted(&[30, 15, 20, 20, 12, 3]) {
+		0 => src.range(-20, 20) as f64,
+		1 => *src.pick(&[0.5, -0.5, 0.1, 0.2, 0.30000000000000004, 1.0 / 3.0, 2.5, 1e-5, 123456789.125, 1e15, 0.001, 1.5e10, -1.25, -0.0, 1e-6, 1e-7]),
+		2 => {
+			// integers below 2^53
+			let sh = 11 + src.below(50) as u32;
+			let v = (src.u64() >> sh) as f64;
+			if src.chance(1, 3) {
+				-v
+			} else {
+				v
+			}
+		}
+		3 => {
+			let e = src.range(-6, 11);
+			let m = src.range(1, 9999) as f64;
+			let v = m * 10f64.powi(e as i32);
+			if src.chance(1, 4) {
+				-v
+			} else {
+				v
+			}
+		}
+		4 => {
+			// any double of moderate magnitude (17 significant digits)
+			let bits = 0x3ff0000000000000u64 + (src.u32() as u64) * 1048577;
+			let v = f64::from_bits(bits) * 10f64.powi(src.range(-3, 8) as i32);
+			if src.chance(1, 4) {
+				-v
+			} else {
+				v
+			}
+		}
+		_ => {
+			f.add("number:huge-or-tiny");
+			*src.pick(&[1e21, 1e20, 9007199254740992.0, 9007199254740993.0, 1e16, 1e17, 1.2345678901234567e30, 1e300, f64::MAX, f64::MIN, -1e21, 1e-10, 1e-20, 5e-324, f64::MIN_POSITIVE, 1.5e-300, 18446744073709551615.0, 9223372036854775807.0, -9223372036854775808.0])
+		}
+	}
+}
+
+struct TreeCfg {
+	null: bool,
+	/// probability weight that an array is made of objects only (TOML arrays of tables)
+	tables: u32,
+}
+
+fn gen_tree(src: &mut Src, depth: usize, width: usize, f: &mut Feat, cfg: &TreeCfg) -> J {
+	let leaf = depth == 0 || src.exhausted();
+	let c = if leaf { 0 } else { 5 };
+	match src.weighted(&[6, 4, if cfg.null { 1 } else { 0 }, 1, c, c]) {
+		0 => J::Str(gen_str(src, f, "val")),
+		1 => J::Num(gen_num(src, f)),
+		2 => J::Null,
+		3 => J::Bool(src.chance(1, 2)),
+		4 => gen_arr(src, depth, width, f, cfg),
+		_ => gen_obj(src, depth, width, f, cfg),
+	}
+}
+fn gen_arr(src: &mut Src, depth: usize, width: usize, f: &mut Feat, cfg: &TreeCfg) -> J {
+	let n = src.below(width + 1);
+	if cfg.tables > 0 && src.weighted(&[10, cfg.tables]) == 1 {
+		return J::Arr((0..n.max(1)).map(|_| gen_obj(src, depth - 1, width, f, cfg)).collect());
+	}
+	J::Arr((0..n).map(|_| gen_tree(src, depth - 1, width, f, cfg)).collect())
+}
+fn gen_obj(src: &mut Src, depth: usize, width: usize, f: &mut Feat, cfg: &TreeCfg) -> J {
+	let n = src.below(width + 1);
+	let mut fields: Vec<(String, J)> = vec![];
+	for _ in 0..n {
+		let k = gen_str(src, f, "key");
+		if fields.iter().any(|x| x.0 == k) {
+			continue;
+		}
+		fields.push((k, gen_tree(src, depth.saturating_sub(1), width, f, cfg)));
+	}
+	J::Obj(fields)
+}
+/// a container at the top (so that there is at least one nesting level), occasionally a bare scalar
+fn gen_top(src: &mut Src, depth: usize, width: usize, f: &mut Feat, cfg: &TreeCfg) -> J {
+	match src.weighted(&[6, 4, 1]) {
+		0 => gen_obj(src, depth, width, f, cfg),
+		1 => gen_arr(src, depth, width, f, cfg),
+		_ => gen_tree(src, 0, width, f, cfg),
+	}
+}
+
+/// a narrow, deep value: every level is an object or an array with one nested member and optional scalar siblings
+fn gen_chain(src: &mut Src, depth: usize, f: &mut Feat, cfg: &TreeCfg) -> J {
+	if depth == 0 {
+		return gen_tree(src, 0, 1, f, cfg);
+	}
+	if src.chance(1, 2) {
+		let mut items = vec![];
+		if src.chance(1, 2) {
+			items.push(gen_tree(src, 0, 1, f, cfg));
+		}
+		items.push(gen_chain(src, depth - 1, f, cfg));
+		if src.chance(1, 2) {
+			items.push(gen_tree(src, 0, 1, f, cfg));
+		}
+		J::Arr(items)
+	} else {
+		let mut fields: Vec<(String, J)> = vec![];
+		if src.chance(1, 2) {
+			fields.push((gen_str(src, f, "key"), gen_tree(src, 0, 1, f, cfg)));
+		}
+		let k = gen_str(src, f, "key");
+		if !fields.iter().any(|x| x.0 == k) {
+			fields.push((k, gen_chain(src, depth - 1, f, cfg)));
+		}
+		if src.chance(1, 2) {
+			let k = gen_str(src, f, "key");
+			if !fields.iter().any(|x| x.0 == k) {
+				fields.push((k, gen_tree(src, 0, 1, f, cfg)));
+			}
+		}
+		J::Obj(fields)
+	}
+}
+
+// ------------------------------------------------------------------------------------------------ source text
+
+const HOLE: &str = "\u{0}\u{0}hole\u{0}\u{0}";
+
+fn num_src(v: f64, out: &mut String) {
+	if v.is_sign_negative() {
+		out.push('-');
+	}
+	// Rust prints 1e21 as "1e21", 1e-7 as "1e-7", 0.1 as "0.1", 3.0 as "3.0": all valid Jsonnet numbers
+	out.push_str(&format!("{:?}", v.abs()));
+}
+/// Jsonnet source of the value; a string equal to HOLE is replaced by `hole` (an arbitrary expression)
+fn lit_into(j: &J, hole: &str, out: &mut String) {
+	match j {
+		J::Null => out.push_str("null"),
+		J::Bool(b) => out.push_str(if *b { "true" } else { "false" }),
+		J::Num(n) => num_src(*n, out),
+		J::Str(s) if s == HOLE => {
+			out.push('(');
+			out.push_str(hole);
+			out.push(')');
+		}
+		J::Str(s) => out.push_str(&jstr(s)),
+		J::Arr(a) => {
+			out.push('[');
+			for (i, x) in a.iter().enumerate() {
+				if i > 0 {
+					out.push_str(", ");
+				}
+				lit_into(x, hole, out);
+			}
+			out.push(']');
+		}
+		J::Obj(f) => {
+			out.push('{');
+			for (i, (k, v)) in f.iter().enumerate() {
+				if i > 0 {
+					out.push_str(", ");
+				}
+				out.push_str(&jstr(k));
+				out.push_str(": ");
+				lit_into(v, hole, out);
+			}
+			out.push('}');
+		}
+	}
+}
+/// Jsonnet string literal that is readable in reports: everything outside printable ASCII is written as \\uXXXX
+fn jstr(s: &str) -> String {
+	let mut o = String::from("\"");
+	let mut buf = [0u16; 2];
+	for c in s.chars() {
+		match c {
+			'"' => o.push_str("\\\""),
+			'\\' => o.push_str("\\\\"),
+			'\n' => o.push_str("\\n"),
+			'\t' => o.push_str("\\t"),
+			' '..='~' => o.push(c),
+			c => {
+				for u in c.encode_utf16(&mut buf) {
+					o.push_str(&format!("\\u{u:04x}"));
+				}
+			}
+		}
+	}
+	o.push('"');
+	o
+}
+fn lit(j: &J) -> String {
+	let mut s = String::new();
+	lit_into(j, "null", &mut s);
+	s
+}
+
+/// evaluate `local v = <value>; [verif.try(call0), verif.try(call1), ...]`; answer i is Ok(text) or Err(error text);
+/// an error text that starts with "PANIC" means that jrsonnet panicked in that call (the calls are then run one by one)
+fn manifest_all(prelude: &str, calls: &[String]) -> Result<Vec<Result<String, String>>, String> {
+	let program = |cs: &[String]| {
+		let mut prog = String::from(prelude);
+		prog.push_str("[\n");
+		for c in cs {
+			prog.push_str("  verif.try(");
+			prog.push_str(c);
+			prog.push_str("),\n");
+		}
+		prog.push_str("]\n");
+		prog
+	};
+	match jr::eval(&program(calls), &Opts::default()) {
+		Outcome::Val(out) => {
+			let got: Value = serde_json::from_str(&out).map_err(|e| format!("result of the probe program is not JSON: {e}"))?;
+			let arr = got.as_array().ok_or("result of the probe program is not an array")?;
+			if arr.len() != calls.len() {
+				return Err(format!("probe program returned {} of {} answers", arr.len(), calls.len()));
+			}
+			Ok(arr
+				.iter()
+				.map(|e| {
+					if e[0] == Value::Bool(true) {
+						match e[1].as_str() {
+							Some(t) => Ok(t.to_owned()),
+							None => Err(format!("[not a string] {}", e[1])),
+						}
+					} else {
+						Err(format!("[{}] {}", e[1].as_str().unwrap_or(""), e[2].as_str().unwrap_or("")))
+					}
+				})
+				.collect())
+		}
+		Outcome::Panic(_) if calls.len() > 1 => {
+			let mut out = vec![];
+			for c in calls {
+				match manifest_all(prelude, std::slice::from_ref(c)) {
+					Ok(mut v) => out.push(v.remove(0)),
+					Err(e) => return Err(e),
+				}
+			}
+			Ok(out)
+		}
+		Outcome::Panic(p) => Ok(vec![Err(format!("PANIC {p}"))]),
+		o => Err(format!("probe program did not evaluate: {}", clip(&o.short(), 400))),
+	}
+}
+
+/// the common part of all in-domain checks: manifest, read back, compare
+struct Job {
+	/// the Jsonnet call, or (for `api`) the description of the Rust-API path
+	call: String,
+	/// text produced through the Rust API with the format object the command line builds (value source, format)
+	api: Option<(String, Api)>,
+	format: &'static str,
+	want: J,
+	stringly: bool,
+	/// classification prefix of problems of this job ("yaml", "toml" ...)
+	family: &'static str,
+}
+/// an alternative reading of a text that repairs a recorded finding: (text to read instead, finding id)
+type Alt = (String, &'static str);
+fn run_jobs(prelude: &str, jobs: &[Job], len: &Lenient, tweak: &dyn Fn(&Job, &str, &Lenient) -> Vec<Alt>) -> Result<Vec<Problem>, String> {
+	let calls: Vec<String> = jobs.iter().filter(|j| j.api.is_none()).map(|j| j.call.clone()).collect();
+	let mut call_texts = match manifest_all(prelude, &calls) {
+		Ok(t) => t.into_iter(),
+		Err(e) => return Ok(vec![problem("probe-program", e)]),
+	};
+	let mut api_texts = api_manifest(jobs).into_iter();
+	let texts: Vec<Result<String, String>> = jobs.iter().map(|j| if j.api.is_none() { call_texts.next().unwrap() } else { api_texts.next().unwrap() }).collect();
+	let mut problems = vec![];
+	// every text may be read in more than one way: the first is the strict one, the others are repairs of recorded findings
+	let mut items: Vec<(&str, String)> = vec![];
+	let mut index: Vec<(usize, Vec<&'static str>)> = vec![]; // (job, finding id of each alternative)
+	for (i, (job, t)) in jobs.iter().zip(&texts).enumerate() {
+		match t {
+			Err(e) => problems.push(problem(format!("{}:rejected-in-domain", job.family), format!("{} failed for a value inside the format's domain: {}", job.call, clip(e, 300)))),
+			Ok(text) => {
+				items.push((job.format, text.clone()));
+				let mut ids = vec![""];
+				for (alt, id) in tweak(job, text, len) {
+					items.push((job.format, alt));
+					ids.push(id);
+				}
+				index.push((i, ids));
+			}
+		}
+	}
+	let answers = ask(&items)?;
+	let mut pos = 0;
+	for (ji, ids) in index {
+		let job = &jobs[ji];
+		let text = texts[ji].as_ref().unwrap();
+		let mut first: Option<Problem> = None;
+		let mut ok = false;
+		for (k, id) in ids.iter().enumerate() {
+			let p = match &answers[pos + k] {
+				Err(e) => Some(problem(
+					format!("{}:not-well-formed:{}", job.family, err_sig(e)),
+					format!("{} produced text that the {} reader rejects: {}\n    text: {}", job.call, job.format, clip(&e.replace('\n', " "), 300), show(&clip(text, 400))),
+				)),
+				Ok(got) => {
+					let got = if job.format == "pyvars" { pairs_to_dict(got) } else { got.clone() };
+					diff(&job.want, &got, "$", job.stringly).map(|(sig, msg)| problem(format!("{}:{}", job.family, sig), format!("{} reads back as different data: {}\n    text: {}", job.call, msg, show(&clip(text, 400)))))
+				}
+			};
+			match p {
+				None => {
+					ok = true;
+					if k > 0 && !id.is_empty() {
+						len.mark(id);
+					}
+					break;
+				}
+				Some(p) => {
+					if first.is_none() {
+						first = Some(p);
+					}
+				}
+			}
+		}
+		if !ok {
+			problems.push(first.unwrap());
+		}
+		pos += ids.len();
+	}
+	Ok(problems)
+}
+/// the format objects that the command line constructs (crates/jrsonnet-cli/src/manifest.rs); the command line prints
+/// the manifested text followed by a line feed
+#[derive(Clone, Copy, Debug)]
+enum Api {
+	Yaml(usize),
+	YamlStream(usize),
+	Toml(usize),
+	Xml,
+	Ini,
+}
+fn api_one(val: &Val, api: Api) -> Result<String, String> {
+	let r = match api {
+		Api::Yaml(p) => val.manifest(YamlFormat::cli(p)),
+		Api::YamlStream(p) => val.manifest(YamlStreamFormat::cli(YamlFormat::cli(p))),
+		Api::Toml(p) => val.manifest(TomlFormat::cli(p)),
+		Api::Xml => val.manifest(XmlJsonmlFormat::cli()),
+		Api::Ini => val.manifest(IniFormat::cli()),
+	};
+	r.map(|t| format!("{t}\n")).map_err(|e| format!("{}", e.error()))
+}
+/// texts of the jobs that go through the Rust API, in job order
+fn api_manifest(jobs: &[Job]) -> Vec<Result<String, String>> {
+	let mut out = vec![];
+	for j in jobs {
+		let Some((src, api)) = &j.api else { continue };
+		let api = *api;
+		let r = guarded(|| -> Result<String, String> {
+			let (r, sess) = jr::eval_val(src, &Opts::default());
+			let val = r.map_err(|e| format!("value expression failed: {}", e.error()))?;
+			let _entered = sess.state.enter();
+			api_one(&val, api)
+		});
+		out.push(match r {
+			Ok(x) => x,
+			Err(p) => Err(format!("PANIC {p}")),
+		});
+	}
+	out
+}
+/// the assignments of a Python module ([[name, value], ...]) as a mapping
+fn pairs_to_dict(r: &R) -> R {
+	match r {
+		R::List(l) => R::Dict(
+			l.iter()
+				.map(|kv| match kv {
+					R::List(p) if p.len() == 2 => (p[0].clone(), p[1].clone()),
+					other => (R::Other("not a pair".into()), other.clone()),
+				})
+				.collect(),
+		),
+		other => other.clone(),
+	}
+}
+/// short stable signature of a reader's exception text
+fn err_sig(e: &str) -> String {
+	let first = e.lines().next().unwrap_or("");
+	let s: String = first.chars().filter(|c| !c.is_ascii_digit()).take(70).collect();
+	s.replace(['"', '\''], "")
+}
+fn no_tweak(_: &Job, _: &str, _: &Lenient) -> Vec<Alt> {
+	vec![]
+}
+
+fn finish_classes(stage: &str, f: &Feat, extra: Vec<String>) -> Vec<String> {
+	let mut cls: Vec<String> = f.classes.iter().map(|c| format!("{stage}:{c}")).collect();
+	cls.extend(extra.into_iter().map(|c| format!("{stage}:{c}")));
+	cls.sort();
+	cls.dedup();
+	cls
+}
+
+// ================================================================================================ YAML
+
+fn yaml_printable(c: char) -> bool {
+	matches!(c, '\t' | '\n' | '\r' | ' '..='~' | '\u{85}' | '\u{a0}'..='\u{d7ff}' | '\u{e000}'..='\u{fffd}' | '\u{10000}'..='\u{10ffff}')
+}
+/// tree-level repairs of the recorded YAML findings
+fn yaml_repair(j: &J, len: &Lenient) -> J {
+	let fix = |s: &str, is_key: bool| -> String {
+		let mut t = s.to_owned();
+		let multiline = !is_key && t.contains('\n');
+		if multiline && len.on("C14-yaml-block-scalar-unescapable") {
+			let bad = |c: char| c != '\n' && (!yaml_printable(c) || matches!(c, '\r' | '\u{85}' | '\u{2028}' | '\u{2029}' | '\u{feff}'));
+			if t.chars().any(bad) {
+				len.mark("C14-yaml-block-scalar-unescapable");
+				t = t.chars().map(|c| if bad(c) { 'R' } else { c }).collect();
+			}
+		}
+		if !is_key && t == "..." && len.on("C14-yaml-cli-bare-document-end") {
+			len.mark("C14-yaml-cli-bare-document-end");
+			t = "x...".to_owned();
+		}
+		if len.on("C14-yaml-nonprintable-raw") && t.chars().any(|c| !yaml_printable(c) && (c as u32) >= 0x20) {
+			len.mark("C14-yaml-nonprintable-raw");
+			t = t.chars().map(|c| if !yaml_printable(c) && (c as u32) >= 0x20 { 'D' } else { c }).collect();
+		}
+		if len.on("C14-yaml-unicode-line-break-raw") && t.contains(['\u{85}', '\u{2028}', '\u{2029}']) {
+			len.mark("C14-yaml-unicode-line-break-raw");
+			t = t.replace(['\u{85}', '\u{2028}', '\u{2029}'], "N");
+		}
+		t
+	};
+	fn go(j: &J, fix: &dyn Fn(&str, bool) -> String) -> J {
+		match j {
+			J::Str(s) => J::Str(fix(s, false)),
+			J::Arr(a) => J::Arr(a.iter().map(|x| go(x, fix)).collect()),
+			J::Obj(f) => {
+				let mut out: Vec<(String, J)> = vec![];
+				for (k, v) in f {
+					let mut k2 = fix(k, true);
+					while out.iter().any(|x| x.0 == k2) {
+						k2.push('_');
+					}
+					out.push((k2, go(v, fix)));
+				}
+				J::Obj(out)
+			}
+			other => other.clone(),
+		}
+	}
+	go(j, &fix)
+}
+
+const BOOLS: [bool; 2] = [false, true];
+const CLI_PADDINGS: &[usize] = &[1, 2, 3, 8];
+
+fn yaml_decide(tree: &J, len: &Lenient) -> Result<Vec<Problem>, String> {
+	let tree = yaml_repair(tree, len);
+	let docs: Vec<J> = match &tree {
+		J::Arr(a) => a.clone(),
+		other => vec![other.clone()],
+	};
+	let prelude = format!("local v = {};\nlocal s = {};\n", lit(&tree), lit(&J::Arr(docs.clone())));
+	let mut jobs = vec![];
+	for iao in BOOLS {
+		for qk in BOOLS {
+			jobs.push(Job { call: format!("std.manifestYamlDoc(v, {iao}, {qk})"), api: None, format: "yaml", want: tree.clone(), stringly: false, family: "yaml" });
+			for cde in BOOLS {
+				jobs.push(Job { call: format!("std.manifestYamlStream(s, {iao}, {cde}, {qk})"), api: None, format: "yamls", want: J::Arr(docs.clone()), stringly: false, family: "yaml-stream" });
+			}
+		}
+	}
+	// defaults and named arguments
+	jobs.push(Job { call: "std.manifestYamlDoc(v)".into(), api: None, format: "yaml", want: tree.clone(), stringly: false, family: "yaml" });
+	jobs.push(Job { call: "std.manifestYamlDoc(v, quote_keys=false)".into(), api: None, format: "yaml", want: tree.clone(), stringly: false, family: "yaml" });
+	jobs.push(Job { call: "std.manifestYamlStream(s)".into(), api: None, format: "yamls", want: J::Arr(docs.clone()), stringly: false, family: "yaml-stream" });
+	jobs.push(Job { call: "std.manifestYamlStream(s, quote_keys=false, c_document_end=false)".into(), api: None, format: "yamls", want: J::Arr(docs.clone()), stringly: false, family: "yaml-stream" });
+	// the command line: `jrsonnet -f yaml [--line-padding p]`, `jrsonnet -y -f yaml`
+	let pads: &[usize] = if len.on("C14-yaml-cli-line-padding") {
+		len.mark("C14-yaml-cli-line-padding");
+		&[2]
+	} else {
+		CLI_PADDINGS
+	};
+	for p in pads {
+		jobs.push(Job { call: format!("YamlFormat::cli({p}) + line feed   [jrsonnet -f yaml --line-padding {p}]"), api: Some((lit(&tree), Api::Yaml(*p))), format: "yaml", want: tree.clone(), stringly: false, family: "yaml-cli" });
+		jobs.push(Job {
+			call: format!("YamlStreamFormat::cli(YamlFormat::cli({p})) + line feed   [jrsonnet -y -f yaml --line-padding {p}]"),
+			api: Some((lit(&J::Arr(docs.clone())), Api::YamlStream(*p))),
+			format: "yamls",
+			want: J::Arr(docs.clone()),
+			stringly: false,
+			family: "yaml-stream-cli",
+		});
+	}
+	let empty_stream = docs.is_empty();
+	let tweak = move |job: &Job, text: &str, len: &Lenient| -> Vec<Alt> {
+		let mut alts: Vec<Alt> = vec![];
+		if job.format == "yaml" && len.on("C14-yaml-final-block-scalar-chomped") && !text.ends_with('\n') {
+			alts.push((format!("{text}\n"), "C14-yaml-final-block-scalar-chomped"));
+		}
+		// Not a finding: blank lines followed by a lone `...` are a stream of zero documents under the YAML 1.2 grammar
+		// (l-document-prefix* l-document-suffix); PyYAML implements YAML 1.1 and rejects it.  The property asks for
+		// well-formed YAML that denotes the same data, which this text is, so it is read as the empty stream.
+		if job.format == "yamls" && empty_stream && text.trim() == "..." {
+			alts.push((String::new(), ""));
+		}
+		alts
+	};
+	run_jobs(&prelude, &jobs, len, &tweak)
+}
+
+fn yaml_case(run: &Run, src: &mut Src) -> CaseOut {
+	let mut f = Feat::default();
+	// mostly bushy trees, one in eight narrow and deep (indentation bookkeeping)
+	let cfg = TreeCfg { null: true, tables: 0 };
+	let tree = match src.weighted(&[12, 2, 1]) {
+		0 => gen_top(src, 4, 4, &mut f, &cfg),
+		1 => {
+			let d = src.range(5, 12) as usize;
+			gen_chain(src, d, &mut f, &cfg)
+		}
+		_ => {
+			// scalars at the top: a stream of scalar documents / a bare scalar document
+			let n = src.range(1, 4) as usize;
+			f.add("scalar-documents");
+			J::Arr((0..n).map(|_| gen_tree(src, 0, 1, &mut f, &cfg)).collect())
+		}
+	};
+	let mut extra = vec![];
+	if tree.depth() >= 6 {
+		extra.push("deep".to_owned());
+	}
+	if matches!(&tree, J::Arr(a) if a.is_empty()) {
+		extra.push("empty-stream".to_owned());
+	}
+	if matches!(&tree, J::Arr(a) if a.len() > 1) {
+		extra.push("stream-of-several-documents".to_owned());
+	}
+	let nontrivial = tree.depth() >= 1 && f.hostile > 0;
+	let cls = finish_classes("yaml", &f, extra);
+	settle(run, format!("yaml: {}", lit(&tree)), cls, nontrivial, |len| yaml_decide(&tree, len))
+}
+
+// ================================================================================================ TOML
+
+const TOML_INDENTS: &[&str] = &["", " ", "  ", "\t", "    "];
+
+fn toml_repair(j: &J, len: &Lenient) -> J {
+	let fix = |s: &str, is_key: bool| -> String {
+		let mut t = s.to_owned();
+		if len.on("C14-toml-del-raw") && t.contains('\u{7f}') {
+			len.mark("C14-toml-del-raw");
+			t = t.replace('\u{7f}', "D");
+		}
+		if is_key && t.is_empty() && len.on("C14-toml-empty-key-bare") {
+			len.mark("C14-toml-empty-key-bare");
+			t = "EMPTY".to_owned();
+		}
+		t
+	};
+	fn go(j: &J, fix: &dyn Fn(&str, bool) -> String) -> J {
+		match j {
+			J::Str(s) => J::Str(fix(s, false)),
+			J::Arr(a) => J::Arr(a.iter().map(|x| go(x, fix)).collect()),
+			J::Obj(f) => {
+				let mut out: Vec<(String, J)> = vec![];
+				for (k, v) in f {
+					let mut k2 = fix(k, true);
+					while out.iter().any(|x| x.0 == k2) {
+						k2.push('_');
+					}
+					out.push((k2, go(v, fix)));
+				}
+				J::Obj(out)
+			}
+			other => other.clone(),
+		}
+	}
+	go(j, &fix)
+}
+
+/// which TOML layouts does the writer have to use for this table?
+fn toml_layouts(obj: &[(String, J)], in_aot: bool, out: &mut Vec<String>) {
+	fn inline(j: &J, out: &mut Vec<String>) {
+		match j {
+			J::Obj(f) => {
+				out.push("layout:inline-table".into());
+				if f.is_empty() {
+					out.push("layout:empty-inline-table".into());
+				}
+				f.iter().for_each(|x| inline(&x.1, out));
+			}
+			J::Arr(a) => {
+				out.push("layout:inline-array".into());
+				a.iter().for_each(|x| inline(x, out));
+			}
+			_ => {}
+		}
+	}
+	for (_, v) in obj {
+		match v {
+			J::Obj(f) => {
+				out.push(if in_aot { "layout:section-inside-array-of-tables" } else { "layout:section" }.into());
+				if f.is_empty() {
+					out.push("layout:empty-section".into());
+				}
+				toml_layouts(f, in_aot, out);
+			}
+			J::Arr(a) if !a.is_empty() && a.iter().all(|x| matches!(x, J::Obj(_))) => {
+				out.push(if in_aot { "layout:nested-array-of-tables" } else { "layout:array-of-tables" }.into());
+				for e in a {
+					if let J::Obj(f) = e {
+						if f.is_empty() {
+							out.push("layout:empty-array-of-tables-element".into());
+						}
+						toml_layouts(f, true, out);
+					}
+				}
+			}
+			J::Arr(a) => {
+				if a.is_empty() {
+					out.push("layout:empty-array".into());
+				} else {
+					out.push("layout:multi-line-array".into());
+					let kinds: Vec<&str> = a.iter().map(kind_j).collect();
+					if kinds.windows(2).any(|w| w[0] != w[1]) {
+						out.push("layout:heterogeneous-array".into());
+					}
+				}
+				a.iter().for_each(|x| inline(x, out));
+			}
+			_ => {}
+		}
+	}
+}
+
+fn toml_decide(tree: &J, len: &Lenient) -> Result<Vec<Problem>, String> {
+	let tree = toml_repair(tree, len);
+	let prelude = format!("local v = {};\n", lit(&tree));
+	let mut jobs = vec![Job { call: "std.manifestToml(v)".into(), api: None, format: "toml", want: tree.clone(), stringly: false, family: "toml" }];
+	for ind in TOML_INDENTS {
+		jobs.push(Job { call: format!("std.manifestTomlEx(v, {})", jstr(ind)), api: None, format: "toml", want: tree.clone(), stringly: false, family: "toml" });
+	}
+	for p in [0usize, 2, 4] {
+		jobs.push(Job { call: format!("TomlFormat::cli({p}) + line feed   [jrsonnet -f toml --line-padding {p}]"), api: Some((lit(&tree), Api::Toml(p))), format: "toml", want: tree.clone(), stringly: false, family: "toml-cli" });
+	}
+	run_jobs(&prelude, &jobs, len, &no_tweak)
+}
+
+fn toml_case(run: &Run, src: &mut Src) -> CaseOut {
+	let mut f = Feat::default();
+	let cfg = TreeCfg { null: false, tables: 8 };
+	let tree = if src.chance(1, 8) {
+		let d = src.range(4, 10) as usize;
+		J::Obj(vec![(gen_str(src, &mut f, "key"), gen_chain(src, d, &mut f, &cfg))])
+	} else {
+		gen_obj(src, 4, 4, &mut f, &cfg)
+	};
+	let mut extra = vec![];
+	if tree.depth() >= 6 {
+		extra.push("deep".to_owned());
+	}
+	if let J::Obj(o) = &tree {
+		toml_layouts(o, false, &mut extra);
+	}
+	let nontrivial = tree.depth() >= 2 && f.hostile > 0;
+	let cls = finish_classes("toml", &f, extra);
+	settle(run, format!("toml: {}", lit(&tree)), cls, nontrivial, |len| toml_decide(&tree, len))
+}
+
+// ================================================================================================ Python
+
+const IDENTS: &[&str] = &["a", "b", "_", "_x", "x1", "A", "Zz", "__init__", "match", "type", "self", "é", "漢字", "Ω", "a_b_c", "print", "true", "null", "none", "x" /* keywords are excluded: not identifiers for a Python reader */];
+
+fn python_decide(tree: &J, vars: &J) -> Result<Vec<Problem>, String> {
+	let prelude = format!("local v = {};\nlocal w = {};\n", lit(tree), lit(vars));
+	let jobs = vec![
+		Job { call: "std.manifestPython(v)".into(), api: None, format: "py", want: tree.clone(), stringly: false, family: "python" },
+		Job { call: "std.manifestPython(w)".into(), api: None, format: "py", want: vars.clone(), stringly: false, family: "python" },
+		Job { call: "std.manifestPythonVars(w)".into(), api: None, format: "pyvars", want: vars.clone(), stringly: false, family: "python-vars" },
+	];
+	run_jobs(&prelude, &jobs, &Lenient::none(), &no_tweak)
+}
+
+fn python_case(run: &Run, src: &mut Src) -> CaseOut {
+	let mut f = Feat::default();
+	let cfg = TreeCfg { null: true, tables: 0 };
+	let tree = gen_top(src, 4, 4, &mut f, &cfg);
+	let n = src.below(5);
+	let mut fields: Vec<(String, J)> = vec![];
+	for _ in 0..n {
+		let k = (*src.pick(IDENTS)).to_owned();
+		if fields.iter().any(|x| x.0 == k) {
+			continue;
+		}
+		if !k.is_ascii() {
+			f.add("vars-non-ascii-identifier");
+		}
+		fields.push((k, gen_tree(src, 2, 3, &mut f, &cfg)));
+	}
+	if fields.is_empty() {
+		f.add("vars-empty");
+	}
+	let vars = J::Obj(fields);
+	let nontrivial = tree.depth() >= 1 && f.hostile > 0;
+	let cls = finish_classes("python", &f, vec![]);
+	// the sidecar returns the assignments as a list of [name, value] pairs: present them as a mapping
+	settle(run, format!("python: {}\npython-vars: {}", lit(&tree), lit(&vars)), cls, nontrivial, |_len| python_decide(&tree, &vars))
+}
+
+// ================================================================================================ XML (JSONML)
+
+const XML_NAMES: &[&str] = &["a", "b", "div", "x-y", "_u", "t.1", "A1", "é", "漢", "a_b", "Ω1", "p"];
+
+fn xml_char(src: &mut Src, f: &mut Feat, attr: bool) -> char {
+	let k = src.weighted(&[8, 8, 3, if attr { 0 } else { 2 }, 1, 1, 1, 1, 1, 3, 1]);
+	let (name, c) = match k {
+		0 => ("alnum", *src.pick(&['a', 'b', 'z', 'A', '0', '9'])),
+		1 => ("markup", *src.pick(&['<', '>', '&', '"', '\'', ';', '#', '=', '/', '!', '?', '-', ']', '[', '%', '\\'])),
+		2 => ("space", ' '),
+		3 => ("tab-or-newline", *src.pick(&['\n', '\t'])),
+		4 => ("del", '\u{7f}'),
+		5 => ("nel", '\u{85}'),
+		6 => ("nbsp", '\u{a0}'),
+		7 => ("ls", '\u{2028}'),
+		8 => ("bom", '\u{feff}'),
+		9 => ("bmp", *src.pick(&['é', 'ß', '漢', 'Ω', '\u{301}', '\u{fffd}'])),
+		_ => ("astral", *src.pick(&['😀', '𝄞', '\u{10000}', '\u{10ffff}'])),
+	};
+	f.add(format!("char:{name}"));
+	c
+}
+fn xml_text(src: &mut Src, f: &mut Feat, attr: bool) -> String {
+	match src.weighted(&[2, 5, 2, 1, 1]) {
+		0 => (*src.pick(PLAIN)).to_owned(),
+		1 => {
+			let n = src.range(1, 8) as usize;
+			f.hostile += 1;
+			(0..n).map(|_| xml_char(src, f, attr)).collect()
+		}
+		2 => {
+			f.hostile += 1;
+			f.add("text:markup-lookalike");
+			(*src.pick(&["&amp;", "&lt;", "&#65;", "&#x41;", "<b>", "</a>", "]]>", "<![CDATA[x]]>", "<!-- c -->", "<?pi?>", "&", "<", ">", "\"", "'", "a&b<c>d\"e'f", "&nbsp;", "%s", "  ", " a ", "&&", "<<"])).to_owned()
+		}
+		3 => {
+			f.add("text:empty");
+			String::new()
+		}
+		_ => {
+			f.add("text:word");
+			(*src.pick(WORDS)).to_owned()
+		}
+	}
+}
+fn gen_jsonml(src: &mut Src, depth: usize, f: &mut Feat) -> J {
+	let tag = (*src.pick(XML_NAMES)).to_owned();
+	if !tag.is_ascii() {
+		f.add("name:non-ascii");
+	}
+	let mut items = vec![J::Str(tag)];
+	match src.weighted(&[3, 1, 5]) {
+		0 => f.add("attrs:absent"),
+		1 => {
+			f.add("attrs:empty");
+			items.push(J::Obj(vec![]));
+		}
+		_ => {
+			let n = src.range(1, 3);
+			let mut attrs: Vec<(String, J)> = vec![];
+			for _ in 0..n {
+				let k = (*src.pick(XML_NAMES)).to_owned();
+				if attrs.iter().any(|x| x.0 == k) {
+					continue;
+				}
+				let v = match src.weighted(&[8, 1, 1, 1]) {
+					0 => J::Str(xml_text(src, f, true)),
+					1 => {
+						f.add("attrs:number-value");
+						J::Num(gen_num(src, f))
+					}
+					2 => {
+						f.add("attrs:bool-value");
+						J::Bool(src.chance(1, 2))
+					}
+					_ => {
+						f.add("attrs:null-value");
+						J::Null
+					}
+				};
+				attrs.push((k, v));
+			}
+			f.add("attrs:present");
+			items.push(J::Obj(attrs));
+		}
+	}
+	let n = if depth == 0 || src.exhausted() { src.below(2) } else { src.below(5) };
+	if n == 0 {
+		f.add("element:empty");
+	}
+	let mut prev_text = false;
+	for _ in 0..n {
+		if depth > 0 && src.chance(1, 2) {
+			items.push(gen_jsonml(src, depth - 1, f));
+			prev_text = false;
+		} else {
+			if prev_text {
+				f.add("text:adjacent");
+			}
+			items.push(J::Str(xml_text(src, f, false)));
+			prev_text = true;
+		}
+	}
+	J::Arr(items)
+}
+/// canonical JSONML: attributes always present, adjacent text merged, empty text dropped
+fn jsonml_canon(j: &J) -> J {
+	let J::Arr(items) = j else { return j.clone() };
+	let tag = items[0].clone();
+	let mut rest = &items[1..];
+	let attrs = if let Some(J::Obj(a)) = rest.first() {
+		rest = &rest[1..];
+		J::Obj(a.clone())
+	} else {
+		J::Obj(vec![])
+	};
+	let mut kids: Vec<J> = vec![];
+	for c in rest {
+		match c {
+			J::Str(s) => {
+				if s.is_empty() {
+					continue;
+				}
+				if let Some(J::Str(prev)) = kids.last_mut() {
+					prev.push_str(s);
+				} else {
+					kids.push(J::Str(s.clone()));
+				}
+			}
+			other => kids.push(jsonml_canon(other)),
+		}
+	}
+	let mut out = vec![tag, attrs];
+	out.extend(kids);
+	J::Arr(out)
+}
+
+fn xml_decide(tree: &J) -> Result<Vec<Problem>, String> {
+	let prelude = format!("local v = {};\n", lit(tree));
+	let jobs = vec![
+		Job { call: "std.manifestXmlJsonml(v)".into(), api: None, format: "xml", want: jsonml_canon(tree), stringly: true, family: "xml" },
+		Job { call: "XmlJsonmlFormat::cli() + line feed   [jrsonnet -f xml-jsonml]".into(), api: Some((lit(tree), Api::Xml)), format: "xml", want: jsonml_canon(tree), stringly: true, family: "xml-cli" },
+	];
+	run_jobs(&prelude, &jobs, &Lenient::none(), &no_tweak)
+}
+fn xml_case(run: &Run, src: &mut Src) -> CaseOut {
+	let mut f = Feat::default();
+	let tree = gen_jsonml(src, 3, &mut f);
+	let nontrivial = tree.depth() >= 2 && f.hostile > 0;
+	let cls = finish_classes("xml", &f, vec![]);
+	settle(run, format!("xml: {}", lit(&tree)), cls, nontrivial, |_len| xml_decide(&tree))
+}
+
+// ================================================================================================ INI
+
+fn ini_ws(c: char) -> bool {
+	c.is_whitespace() || matches!(c, '\u{1c}'..='\u{1f}')
+}
+fn ini_char(src: &mut Src, f: &mut Feat, key: bool) -> char {
+	let k = src.weighted(&[8, 8, 3, 1, 1, 1, 3, 1, 1]);
+	let (name, c) = match k {
+		0 => ("alnum", *src.pick(&['a', 'b', 'z', 'A', 'Z', '0', '1', '9'])),
+		1 => {
+			if key {
+				("punct", *src.pick(&['"', '\'', '\\', '#', ':', '-', ';', ',', '&', '*', '!', '|', '>', '%', '@', '`', '<', '?', '~', '.', '/', '+', '_', '$', '(', ')', '{', '}']))
+			} else {
+				("punct", *src.pick(&['"', '\'', '\\', '#', ':', '-', ';', ',', '&', '*', '!', '|', '>', '%', '@', '`', '<', '?', '~', '.', '/', '+', '_', '$', '(', ')', '{', '}', '=', '[', ']']))
+			}
+		}
+		2 => ("space", ' '),
+		3 => ("tab", '\t'),
+		4 => ("del", '\u{7f}'),
+		5 => ("bom", '\u{feff}'),
+		6 => ("bmp", *src.pick(&['é', 'ß', '漢', 'Ω', '\u{301}', '\u{fffd}'])),
+		7 => ("nbsp", '\u{a0}'),
+		_ => ("astral", *src.pick(&['😀', '𝄞', '\u{10ffff}'])),
+	};
+	f.add(format!("char:{name}"));
+	c
+}
+/// INI names and values: one line, no white space at either end; names: non-empty, no `=`, `[`, `]`, no comment sign in front
+fn ini_text(src: &mut Src, f: &mut Feat, key: bool) -> String {
+	let mut s: String = match src.weighted(&[3, 5, 2, if key { 0 } else { 1 }]) {
+		0 => (*src.pick(PLAIN)).to_owned(),
+		1 => {
+			f.hostile += 1;
+			let n = src.range(1, 8) as usize;
+			(0..n).map(|_| ini_char(src, f, key)).collect()
+		}
+		2 => {
+			f.hostile += 1;
+			f.add("text:word");
+			let w = *src.pick(&["true", "false", "yes", "no", "on", "off", "null", "~", "0", "-1", "1e3", "1:30", "a b", "a: b", "a #b", "a ;b", "%(a)s", "${a}", "\"q\"", "'q'", "a\\", "\\n", "DEFAULT", "a.b", "a:b", "x y z", "%", "%%"]);
+			w.to_owned()
+		}
+		_ => {
+			f.add("value:empty");
+			String::new()
+		}
+	};
+	while s.chars().next().is_some_and(ini_ws) {
+		s.remove(0);
+	}
+	while s.chars().last().is_some_and(ini_ws) {
+		s.pop();
+	}
+	if key {
+		while s.starts_with(['#', ';']) {
+			s.remove(0);
+			while s.chars().next().is_some_and(ini_ws) {
+				s.remove(0);
+			}
+		}
+		if s.is_empty() {
+			s.push('k');
+		}
+	} else if s.starts_with(['#', ';']) {
+		s.insert(0, 'v');
+	}
+	s
+}
+fn ini_scalar(src: &mut Src, f: &mut Feat) -> J {
+	match src.weighted(&[6, 2, 1]) {
+		0 => J::Str(ini_text(src, f, false)),
+		1 => {
+			f.add("value:number");
+			J::Num(gen_num(src, f))
+		}
+		_ => {
+			f.add("value:bool");
+			J::Bool(src.chance(1, 2))
+		}
+	}
+}
+fn ini_body(src: &mut Src, f: &mut Feat) -> J {
+	let n = src.below(5);
+	let mut fields: Vec<(String, J)> = vec![];
+	for _ in 0..n {
+		let k = ini_text(src, f, true);
+		if fields.iter().any(|x| x.0 == k) {
+			continue;
+		}
+		let v = if src.chance(1, 4) {
+			let m = src.below(4);
+			f.add(match m {
+				0 => "value:empty-array",
+				1 => "value:array-of-one",
+				_ => "value:array",
+			});
+			J::Arr((0..m).map(|_| ini_scalar(src, f)).collect())
+		} else {
+			ini_scalar(src, f)
+		};
+		fields.push((k, v));
+	}
+	if fields.is_empty() {
+		f.add("body:empty");
+	}
+	J::Obj(fields)
+}
+fn gen_ini(src: &mut Src, f: &mut Feat) -> J {
+	let mut top: Vec<(String, J)> = vec![];
+	if src.chance(2, 3) {
+		f.add("main:present");
+		top.push(("main".into(), ini_body(src, f)));
+	} else {
+		f.add("main:absent");
+	}
+	let n = src.below(4);
+	let mut secs: Vec<(String, J)> = vec![];
+	for _ in 0..n {
+		let k = ini_text(src, f, true);
+		if secs.iter().any(|x| x.0 == k) {
+			continue;
+		}
+		secs.push((k, ini_body(src, f)));
+	}
+	if secs.is_empty() {
+		f.add("sections:none");
+	}
+	top.push(("sections".into(), J::Obj(secs)));
+	J::Obj(top)
+}
+/// what an INI reader can see: every key with the list of its values (a key with an empty list does not appear)
+fn ini_canon(tree: &J) -> J {
+	fn body(b: &J) -> J {
+		let J::Obj(f) = b else { return J::Obj(vec![]) };
+		J::Obj(
+			f.iter()
+				.filter_map(|(k, v)| match v {
+					J::Arr(a) if a.is_empty() => None,
+					J::Arr(a) => Some((k.clone(), J::Arr(a.clone()))),
+					other => Some((k.clone(), J::Arr(vec![other.clone()]))),
+				})
+				.collect(),
+		)
+	}
+	let J::Obj(top) = tree else { return tree.clone() };
+	let main = top.iter().find(|x| x.0 == "main").map(|x| body(&x.1)).unwrap_or(J::Obj(vec![]));
+	let sections = match top.iter().find(|x| x.0 == "sections") {
+		Some((_, J::Obj(s))) => J::Obj(s.iter().map(|(k, v)| (k.clone(), body(v))).collect()),
+		_ => J::Obj(vec![]),
+	};
+	J::Obj(vec![("main".into(), main), ("sections".into(), sections)])
+}
+fn ini_decide(tree: &J) -> Result<Vec<Problem>, String> {
+	let prelude = format!("local v = {};\n", lit(tree));
+	let jobs = vec![
+		Job { call: "std.manifestIni(v)".into(), api: None, format: "ini", want: ini_canon(tree), stringly: true, family: "ini" },
+		Job { call: "IniFormat::cli() + line feed   [jrsonnet -f ini]".into(), api: Some((lit(tree), Api::Ini)), format: "ini", want: ini_canon(tree), stringly: true, family: "ini-cli" },
+	];
+	run_jobs(&prelude, &jobs, &Lenient::none(), &no_tweak)
+}
+fn ini_case(run: &Run, src: &mut Src) -> CaseOut {
+	let mut f = Feat::default();
+	let tree = gen_ini(src, &mut f);
+	let nontrivial = f.hostile > 0;
+	let cls = finish_classes("ini", &f, vec![]);
+	settle(run, format!("ini: {}", lit(&tree)), cls, nontrivial, |_len| ini_decide(&tree))
+}
+
+// ================================================================================================ out-of-domain values are rejected
+
+const FUNCTION: &str = "function(x) x";
+
+/// put HOLE somewhere into a (TOML-shaped) tree; returns a description of the place
+fn plant(src: &mut Src, base: J, toml: bool) -> (J, &'static str) {
+	let hole = J::Str(HOLE.to_owned());
+	let small = || J::Obj(vec![("k".into(), J::Num(1.0))]);
+	let k = src.below(if toml { 7 } else { 6 });
+	let (inner, place): (J, &'static str) = match k {
+		0 => (hole, "field value"),
+		1 => (J::Arr(vec![J::Num(1.0), hole]), "array element"),
+		2 => (J::Obj(vec![("in".into(), hole)]), "field of a nested object"),
+		3 => (J::Arr(vec![small(), J::Obj(vec![("in".into(), hole)])]), "field of an object in an array of objects"),
+		4 => (J::Arr(vec![J::Num(1.0), J::Obj(vec![("in".into(), hole)])]), "field of an object in a mixed array"),
+		5 => (J::Arr(vec![J::Arr(vec![hole])]), "element of a nested array"),
+		_ => (J::Obj(vec![("t".into(), J::Arr(vec![J::Obj(vec![("u".into(), J::Arr(vec![J::Obj(vec![("in".into(), hole)])]))])]))]), "field in a nested array of tables"),
+	};
+	let mut fields = match base {
+		J::Obj(f) => f,
+		_ => vec![],
+	};
+	fields.retain(|x| x.0 != "zz");
+	fields.push(("zz".into(), inner));
+	(J::Obj(fields), place)
+}
+
+struct Reject {
+	/// calls that must fail
+	calls: Vec<String>,
+	/// the value (`v`) with the offending part in place
+	bad: String,
+	/// the value with the offending part replaced by something harmless: every call must then succeed
+	good: Option<String>,
+	what: String,
+	class: String,
+}
+
+fn gen_reject(src: &mut Src, f: &mut Feat) -> Reject {
+	let yaml_calls = || vec!["std.manifestYamlDoc(v)".to_owned(), "std.manifestYamlDoc(v, true, false)".to_owned(), "std.manifestYamlStream([v])".to_owned(), "std.manifestYamlStream([1, v], true, false, false)".to_owned()];
+	let toml_calls = || vec!["std.manifestToml(v)".to_owned(), "std.manifestTomlEx(v, '  ')".to_owned(), "std.manifestTomlEx(v, '')".to_owned()];
+	let py_calls = || vec!["std.manifestPython(v)".to_owned(), "std.manifestPythonVars(v)".to_owned()];
+	let with = |j: &J, hole: &str| {
+		let mut s = String::new();
+		lit_into(j, hole, &mut s);
+		s
+	};
+	match src.below(9) {
+		0 => {
+			// a function somewhere in a YAML / Python value
+			let base = gen_obj(src, 2, 3, f, &TreeCfg { null: true, tables: 0 });
+			let base = J::Obj(match base {
+				J::Obj(fl) => fl.into_iter().enumerate().map(|(i, (_, v))| (format!("k{i}"), v)).collect(),
+				_ => vec![],
+			});
+			let (t, place) = plant(src, base, false);
+			let mut calls = yaml_calls();
+			calls.extend(py_calls());
+			Reject { calls, bad: with(&t, FUNCTION), good: Some(with(&t, "1")), what: format!("function as {place}"), class: format!("function-in-yaml-python:{place}") }
+		}
+		1 => {
+			let base = gen_obj(src, 2, 3, f, &TreeCfg { null: false, tables: 4 });
+			let (t, place) = plant(src, base, true);
+			Reject { calls: toml_calls(), bad: with(&t, FUNCTION), good: Some(with(&t, "1")), what: format!("function as {place} (TOML)"), class: format!("function-in-toml:{place}") }
+		}
+		2 => {
+			let base = gen_obj(src, 2, 3, f, &TreeCfg { null: false, tables: 4 });
+			let (t, place) = plant(src, base, true);
+			Reject { calls: toml_calls(), bad: with(&t, "null"), good: Some(with(&t, "0")), what: format!("null as {place} (TOML)"), class: format!("null-in-toml:{place}") }
+		}
+		3 => {
+			// top-level shapes
+			let (v, what) = *src.pick(&[
+				(FUNCTION, "function at the top"),
+				("[function(x) x]", "function in a top-level array"),
+				("{a: function(x) x}", "function in a top-level object"),
+				("{a: [{b: function(x) x}]}", "function deep inside"),
+			]);
+			let mut calls = yaml_calls();
+			calls.push("std.manifestPython(v)".into());
+			if v.starts_with('{') {
+				calls.extend(toml_calls());
+				calls.push("std.manifestPythonVars(v)".into());
+			}
+			Reject { calls, bad: v.to_owned(), good: None, what: what.to_owned(), class: format!("fixed:{what}") }
+		}
+		4 => {
+			let (v, what) = *src.pick(&[("[1, 2]", "array"), ("\"s\"", "string"), ("1", "number"), ("null", "null"), ("true", "boolean"), ("[{a: 1}]", "array of objects")]);
+			let mut calls = toml_calls();
+			calls.push("std.manifestPythonVars(v)".into());
+			calls.push("std.manifestIni(v)".into());
+			Reject { calls, bad: v.to_owned(), good: None, what: format!("top-level {what} for TOML / Python variables / INI"), class: format!("toml-pyvars-ini-top:{what}") }
+		}
+		5 => {
+			let (v, what) = *src.pick(&[("{a: 1}", "object"), ("\"s\"", "string"), ("1", "number"), ("null", "null"), ("true", "boolean")]);
+			Reject {
+				calls: vec!["std.manifestYamlStream(v)".into(), "std.manifestYamlStream(v, true, false, false)".into()],
+				bad: v.to_owned(),
+				good: None,
+				what: format!("top-level {what} for a YAML stream"),
+				class: format!("yaml-stream-top:{what}"),
+			}
+		}
+		6 | 7 => {
+			// non-JSONML shapes
+			let (v, what) = *src.pick(&[
+				("1", "number at the top"),
+				("null", "null at the top"),
+				("true", "boolean at the top"),
+				("{}", "object at the top"),
+				("{tag: 'a'}", "object at the top"),
+				("[]", "empty array (no tag)"),
+				("[1]", "number as tag"),
+				("[null]", "null as tag"),
+				("[['a']]", "array as tag"),
+				("[{}]", "object as tag"),
+				("['a', 1]", "number as child"),
+				("['a', null]", "null as child"),
+				("['a', true]", "boolean as child"),
+				("['a', {}, {}]", "second object (child position)"),
+				("['a', 't', {}]", "object after a text child"),
+				("['a', {}, 1]", "number as child after attributes"),
+				("['a', []]", "empty array as child"),
+				("['a', ['b', 3]]", "number as grandchild"),
+				("['a', ['b', ['c', {}, null]]]", "null deep inside"),
+				("['a', function(x) x]", "function as child"),
+				("[function(x) x]", "function as tag"),
+				("['a', {x: function(x) x}]", "function as attribute value"),
+				("['a', ['b', {}, function(x) x]]", "function as grandchild"),
+				("function(x) ['a']", "function at the top"),
+				("'text'", "bare string at the top"),
+				("''", "empty string at the top"),
+			]);
+			Reject { calls: vec!["std.manifestXmlJsonml(v)".into()], bad: v.to_owned(), good: None, what: format!("JSONML: {what}"), class: format!("jsonml:{what}") }
+		}
+		_ => {
+			let (v, what) = *src.pick(&[
+				("{sections: {s: 1}}", "number as section"),
+				("{sections: {s: 'x'}}", "string as section"),
+				("{sections: {s: [1]}}", "array as section"),
+				("{sections: {s: null}}", "null as section"),
+				("{sections: {s: true}}", "boolean as section"),
+				("{sections: {a: {k: 1}, s: [{k: 1}]}}", "array of objects as section"),
+				("{sections: [1]}", "array as sections"),
+				("{sections: null}", "null as sections"),
+				("{sections: 's'}", "string as sections"),
+				("{main: 1, sections: {}}", "number as main"),
+				("{main: [1], sections: {}}", "array as main"),
+				("{main: 's', sections: {}}", "string as main"),
+				("{main: {k: function(x) x}, sections: {}}", "function as value in main"),
+				("{main: {k: [1, function(x) x]}, sections: {}}", "function in an array value"),
+				("{sections: {s: {k: function(x) x}}}", "function as value in a section"),
+				("{sections: {s: function(x) {}}}", "function as section"),
+				("{sections: function(x) {}}", "function as sections"),
+				("{main: function(x) {}, sections: {}}", "function as main"),
+			]);
+			Reject { calls: vec!["std.manifestIni(v)".into()], bad: v.to_owned(), good: None, what: format!("INI: {what}"), class: format!("ini:{what}") }
+		}
+	}
+}
+
+fn reject_case(run: &Run, src: &mut Src) -> CaseOut {
+	let mut f = Feat::default();
+	let r = gen_reject(src, &mut f);
+	let text = format!("rejected: local v = {}; {}   // {}", r.bad, r.calls.join(" | "), r.what);
+	let cls = vec![format!("rejected:{}", r.class)];
+	settle(run, text, cls, true, |len| {
+		let mut problems = vec![];
+		match manifest_all(&format!("local v = {};\n", r.bad), &r.calls) {
+			Err(e) => problems.push(problem("rejected:probe-program", e)),
+			Ok(res) => {
+				for (c, t) in r.calls.iter().zip(res) {
+					if let Ok(t) = t {
+						if c.contains("manifestXmlJsonml") && r.what.contains("string at the top") && len.on("C14-xml-top-level-string") {
+							len.mark("C14-xml-top-level-string");
+							continue;
+						}
+						problems.push(problem(format!("rejected:accepted:{}", r.class), format!("{c} accepted a value outside the format's domain ({}) and produced {}", r.what, show(&clip(&t, 200)))));
+					} else if let Err(e) = t {
+						if e.starts_with("PANIC") {
+							if c.contains("manifestIni") && e.contains("shape is correct") && len.on("C14-ini-non-object-panics") {
+								len.mark("C14-ini-non-object-panics");
+								continue;
+							}
+							problems.push(problem(format!("rejected:panic:{}", r.class), format!("{c} panicked instead of rejecting the value ({}): {}", r.what, clip(&e, 300))));
+						}
+					}
+				}
+			}
+		}
+		if let Some(good) = &r.good {
+			match manifest_all(&format!("local v = {good};\n"), &r.calls) {
+				Err(e) => problems.push(problem("rejected:probe-program", e)),
+				Ok(res) => {
+					for (c, t) in r.calls.iter().zip(res) {
+						if let Err(e) = t {
+							if c.contains("manifestPythonVars") {
+								continue; // keys of the control value need not be identifiers; only the rejection matters here
+							}
+							problems.push(problem("rejected:control-fails", format!("{c} also fails once the offending part is replaced by a number ({e}): the rejection above proves nothing")));
+						}
+					}
+				}
+			}
+		}
+		Ok(problems)
+	})
+}
+
+// ================================================================================================ driver
+
+const RULE: &str = "JSON-like trees whose keys and strings come from a format-hostile alphabet (quotes, backslash, # : - = [ ] { } , & * ! | > % @ ` <, leading/trailing/inner spaces, tab, C0 controls, U+007F, U+0085, U+00A0, U+2028, U+FEFF, astral, empty string, the YAML 1.1 keywords and number look-alikes of the property text in three letter cases, further look-alikes, number-ish strings, block-scalar-safe multi-line strings), numbers weighted to |x| < 2^53 (3 % huge/tiny); bushy trees (depth 4, width 4), narrow chains of depth 5-12 and streams of scalar documents; per format only its sub-domain (TOML: object at the top, no null, arrays of tables biased; Python vars: identifier keys; XML: JSONML with XML names, no C0 controls; INI: {main?, sections}, one-line names/values without edge white space). Every tree is manifested by every function/option combination of its format (manifestYamlDoc x4, manifestYamlStream x8 + defaults/named arguments, manifestToml, manifestTomlEx x5 indents, manifestPython, manifestPythonVars, manifestXmlJsonml, manifestIni) and, through the Rust API, by the format objects the command line builds followed by the line feed the command line prints (YamlFormat::cli(1|2|3|8), YamlStreamFormat::cli, TomlFormat::cli(0|2|4), XmlJsonmlFormat::cli, IniFormat::cli), and read back by the Python sidecar (PyYAML safe_load/safe_load_all, tomllib, ast.literal_eval/ast.parse, ElementTree, configparser); the data read must equal the tree (keys, strings code point for code point, numbers as doubles, sequence order, document count). Out-of-domain values (functions anywhere, null in TOML, wrong top-level shapes, non-JSONML shapes, non-object INI sections) must be rejected, and the same value without the offending part must be accepted. Non-trivial = at least one hostile key/string and one nesting level; distinct by value text.";
+
+/// the readers and the comparison are exercised on fixed texts in every run: equal data must be accepted, different data detected
+fn selftest(i: u64) -> CaseOut {
+	let n = |x: f64| J::Num(x);
+	let st = |x: &str| J::Str(x.to_owned());
+	let o = |f: Vec<(&str, J)>| J::Obj(f.into_iter().map(|(k, v)| (k.to_owned(), v)).collect());
+	let table: Vec<(&str, &str, J, bool, bool)> = vec![
+		("yaml", "a: 1\nb: [x, 2.5, null, true]", o(vec![("a", n(1.0)), ("b", J::Arr(vec![st("x"), n(2.5), J::Null, J::Bool(true)]))]), false, true),
+		("yaml", "a: yes", o(vec![("a", st("yes"))]), false, false),
+		("yaml", "a: 0x1f", o(vec![("a", st("0x1f"))]), false, false),
+		("yaml", "\"a\": \"b \\u00e9\"", o(vec![("a", st("b \u{e9}"))]), false, true),
+		("yaml", "a: 1\na: 2", o(vec![("a", n(2.0))]), false, true), // PyYAML keeps the last of duplicate keys: known weakness of this reader
+		("yaml", "a: [", o(vec![]), false, false),
+		("yamls", "---\n1\n---\n2\n", J::Arr(vec![n(1.0), n(2.0)]), false, true),
+		("yamls", "---\n1\n---\n2\n", J::Arr(vec![n(1.0)]), false, false),
+		("yamls", "---\n2\n---\n1\n", J::Arr(vec![n(1.0), n(2.0)]), false, false),
+		("toml", "a = 1\n[b]\nc = \"x\"\n[[d]]\n[[d]]\ne = 0.5", o(vec![("a", n(1.0)), ("b", o(vec![("c", st("x"))])), ("d", J::Arr(vec![o(vec![]), o(vec![("e", n(0.5))])]))]), false, true),
+		("toml", "a = 1", o(vec![("a", st("1"))]), false, false),
+		("toml", "a = 1\na = 2", o(vec![("a", n(2.0))]), false, false),
+		("toml", "a = 100000000000000000000", o(vec![("a", n(1e20))]), false, true),
+		("py", "{\"a\": [1, None, True, 1e+21, \"\\u00e9\"]}", o(vec![("a", J::Arr(vec![n(1.0), J::Null, J::Bool(true), n(1e21), st("\u{e9}")]))]), false, true),
+		("py", "[1, 2]", J::Arr(vec![n(2.0), n(1.0)]), false, false),
+		("py", "(1, 2)", J::Arr(vec![n(1.0), n(2.0)]), false, false),
+		("pyvars", "a = 1\nb = [\"x\"]\n", o(vec![("a", n(1.0)), ("b", J::Arr(vec![st("x")]))]), false, true),
+		("pyvars", "a = 1\na = 2\n", o(vec![("a", n(2.0))]), false, false),
+		("pyvars", "a-b = 1\n", o(vec![("a-b", n(1.0))]), false, false),
+		("xml", "<a x=\"1\">t&amp;<b></b>u<c/></a>", J::Arr(vec![st("a"), o(vec![("x", n(1.0))]), st("t&"), J::Arr(vec![st("b"), o(vec![])]), st("u"), J::Arr(vec![st("c"), o(vec![])])]), true, true),
+		("xml", "<a>t</a>", J::Arr(vec![st("a"), o(vec![]), st("t ")]), true, false),
+		("xml", "<a>t", J::Arr(vec![st("a"), o(vec![]), st("t")]), true, false),
+		("ini", "k = 1\nk = x y\n[s]\na = \n[t]\n", o(vec![("main", o(vec![("k", J::Arr(vec![n(1.0), st("x y")]))])), ("sections", o(vec![("s", o(vec![("a", J::Arr(vec![st("")]))])), ("t", o(vec![]))]))]), true, true),
+		("ini", "k = 1\n", o(vec![("main", o(vec![("k", J::Arr(vec![n(2.0)]))])), ("sections", o(vec![]))]), true, false),
+		("ini", "[s]\nk = 1\n", o(vec![("main", o(vec![])), ("sections", o(vec![("t", o(vec![("k", J::Arr(vec![n(1.0)]))]))]))]), true, false),
+	];
+	let Some((fmt, text, want, stringly, same)) = table.into_iter().nth(i as usize) else {
+		return CaseOut::discard(format!("selftest {i}"), "no such self-test");
+	};
+	let label = format!("selftest {i}: {fmt} {} against {}", show(text), want.to_text());
+	match ask(&[(fmt, text.to_owned())]) {
+		Err(e) => CaseOut::fail(label, format!("sidecar unavailable: {e}")),
+		Ok(ans) => {
+			let d = match &ans[0] {
+				Err(e) => Some(format!("reader rejects: {e}")),
+				Ok(got) => {
+					let got = if fmt == "pyvars" { pairs_to_dict(got) } else { got.clone() };
+					diff(&want, &got, "$", stringly).map(|x| x.1)
+				}
+			};
+			match (d, same) {
+				(None, true) | (Some(_), false) => CaseOut::pass(label, true).class("selftest"),
+				(None, false) => CaseOut::fail(label, "the oracle accepted data that differs from the text".into()),
+				(Some(m), true) => CaseOut::fail(label, format!("the oracle rejected matching data: {m}")),
+			}
+		}
+	}
+}
+const SELFTESTS: u64 = 25;
+
+/// Decide a case given as text (the `replay` field of a recorded finding):
+///   `yaml: <jsonnet value>` | `toml: ...` | `python: ...` | `xml: ...` | `ini: ...`   the value goes through that stage's check
+///   `rejected: <jsonnet call>`                                                         the call must fail with an error
+fn decide_text(run: &Run, text: &str) -> CaseOut {
+	let Some((stage, expr)) = text.split_once(':') else {
+		return CaseOut::fail(text.to_owned(), "reproducer is not of the form `<stage>: <jsonnet>`".into());
+	};
+	let expr = expr.trim();
+	let label = text.to_owned();
+	if stage == "rejected" {
+		let call = expr.to_owned();
+		return settle(run, label, vec![], true, |len| {
+			let mut problems = vec![];
+			match manifest_all("", std::slice::from_ref(&call)) {
+				Err(e) => problems.push(problem("rejected:probe-program", e)),
+				Ok(res) => match &res[0] {
+					Ok(t) => {
+						if call.contains("manifestXmlJsonml") && len.on("C14-xml-top-level-string") {
+							len.mark("C14-xml-top-level-string");
+						} else {
+							problems.push(problem("rejected:accepted", format!("{call} accepted a value outside the format's domain and produced {}", show(&clip(t, 200)))));
+						}
+					}
+					Err(e) if e.starts_with("PANIC") => {
+						if call.contains("manifestIni") && e.contains("shape is correct") && len.on("C14-ini-non-object-panics") {
+							len.mark("C14-ini-non-object-panics");
+						} else {
+							problems.push(problem("rejected:panic", format!("{call} panicked instead of rejecting the value: {}", clip(e, 300))));
+						}
+					}
+					Err(_) => {}
+				},
+			}
+			Ok(problems)
+		});
+	}
+	let tree = match jr::eval(expr, &Opts::default()) {
+		Outcome::Val(j) => match crate::json::parse(&j) {
+			Ok(t) => t,
+			Err(e) => return CaseOut::fail(label, format!("value of the reproducer is not JSON: {} at {}", e.0, e.1)),
+		},
+		o => return CaseOut::fail(label, format!("value of the reproducer does not evaluate: {}", clip(&o.short(), 300))),
+	};
+	match stage {
+		"yaml" => settle(run, label, vec![], true, |len| yaml_decide(&tree, len)),
+		"toml" => settle(run, label, vec![], true, |len| toml_decide(&tree, len)),
+		"python" => settle(run, label, vec![], true, |_| python_decide(&tree, &J::Obj(vec![]))),
+		"xml" => settle(run, label, vec![], true, |_| xml_decide(&tree)),
+		"ini" => settle(run, label, vec![], true, |_| ini_decide(&tree)),
+		_ => CaseOut::fail(label, format!("unknown stage {stage}")),
+	}
+}
+
+pub fn run(run: &Run) {
+	run.set_rule(RULE);
+	run.assume("the readers of /usr/bin/python3 (PyYAML 6.0 pure-Python SafeLoader = YAML 1.1, tomllib, ast, xml.etree/expat, configparser) implement their formats; PyYAML decides YAML questions");
+	match ask(&[("py", "[1, 'probe']".to_owned())]) {
+		Ok(v) if matches!(v.first(), Some(Ok(R::List(l))) if l.len() == 2) => {}
+		Ok(v) => run.infra(format!("C14 sidecar self-test gave {:?}", v.first())),
+		Err(e) => {
+			run.infra(format!("C14 sidecar unavailable: {e}"));
+			return;
+		}
+	}
+	if let Ok(t) = std::env::var("C14_DECIDE") {
+		// development aid: decide one case given as text (same form as the reproducers of recorded findings) and stop
+		let out = decide_text(run, &t);
+		run.record("decide", &out);
+		match &out.verdict {
+			Verdict::Fail(why) => run.add_violation("known-reproducers", &out.text, why, None, Value::Null),
+			Verdict::Known(id) => eprintln!("KNOWN {id}"),
+			Verdict::Pass => eprintln!("PASS"),
+			Verdict::Discard(w) => eprintln!("DISCARD {w}"),
+		}
+		run.note("C14_DECIDE set: only that case was decided");
+		return;
+	}
+	if survey() {
+		run.note("C14_SURVEY=1: failures are counted as classes survey:* instead of being reported (development mode)");
+	}
+	run.enumerate("oracle-selftest", SELFTESTS, selftest);
+	run.reproduce_known(|k| decide_text(run, &k.replay));
+	let n = run.tier.pick(2_000, 60_000);
+	run.explore("yaml", 2 * n, 20..=260, |src| yaml_case(run, src));
+	run.explore("toml", n + n / 2, 20..=260, |src| toml_case(run, src));
+	run.explore("python", n, 20..=260, |src| python_case(run, src));
+	run.explore("xml", n, 20..=200, |src| xml_case(run, src));
+	run.explore("ini", n, 20..=200, |src| ini_case(run, src));
+	run.explore("rejected", run.tier.pick(1_500, 30_000), 10..=120, |src| reject_case(run, src));
+	if survey() {
+		let m = SURVEY_SEEN.lock().unwrap();
+		for (k, v) in m.iter() {
+			eprintln!("survey total {v:6}  {k}");
+		}
+	}
+	// floors (generator-degenerate guard)
+	let floor = run.tier.pick(30, 300);
+	for w in WORDS {
+		run.require_class(&format!("yaml:key-word:{w}"), floor);
+		run.require_class(&format!("yaml:val-word:{w}"), floor);
+	}
+	for c in ["c0", "del", "nel", "nbsp", "ls", "bom", "astral", "tab", "punct"] {
+		run.require_class(&format!("yaml:val-char:{c}"), floor);
+		run.require_class(&format!("yaml:key-char:{c}"), floor);
+	}
+	for c in ["val-multiline", "val-multiline-final-newline", "val-empty", "key-empty", "val-numberish", "key-numberish", "number:huge-or-tiny", "stream-of-several-documents"] {
+		run.require_class(&format!("yaml:{c}"), floor);
+	}
+	let lf = run.tier.pick(200, 3000);
+	for c in ["inline-table", "section", "array-of-tables", "nested-array-of-tables", "section-inside-array-of-tables", "empty-section", "empty-array", "heterogeneous-array", "multi-line-array"] {
+		run.require_class(&format!("toml:layout:{c}"), if c.starts_with("empty") || c.starts_with("nested") { lf / 2 } else { lf });
+	}
+	for c in ["attrs:present", "attrs:absent", "attrs:empty", "text:adjacent", "text:markup-lookalike", "element:empty", "char:markup"] {
+		run.require_class(&format!("xml:{c}"), lf / 2);
+	}
+	for c in ["main:present", "main:absent", "value:array", "value:empty-array", "value:number", "char:punct"] {
+		run.require_class(&format!("ini:{c}"), lf / 2);
+	}
+}
+
+pub fn replay(run: &Run, stage: &str, tape: Option<&[u16]>, v: &Value) -> Option<CaseOut> {
+	if stage == "oracle-selftest" {
+		return v["extra"]["index"].as_u64().map(selftest);
+	}
+	if stage == "known-reproducers" {
+		return v["case"].as_str().map(|c| decide_text(run, c));
+	}
+	let t = tape?;
+	let mut src = Src::new(t);
+	match stage {
+		"yaml" => Some(yaml_case(run, &mut src)),
+		"toml" => Some(toml_case(run, &mut src)),
+		"python" => Some(python_case(run, &mut src)),
+		"xml" => Some(xml_case(run, &mut src)),
+		"ini" => Some(ini_case(run, &mut src)),
+		"rejected" => Some(reject_case(run, &mut src)),
+		_ => None,
+	}
 }
